@@ -1724,3 +1724,1040 @@ Proof.
     rewrite (loop_fall_done _ _ _ (hand_out_done_fall _ (hand_out_empty s Hd)) eq_refl).
     cbn [set_done decoded trailers]. rewrite Hd, Et. reflexivity.
 Qed.
+
+(* ==========================================================================================
+   THE CURRENT CODE (Model/WebClient.v [iter_x] ...: fixes c815a16a, 2dcb76d4; HeaderMap::extend).
+   Everything above is about the model of the code before c815a16a ([run]); it is used here as a
+   library: on scripts without HTTP trailers the new model is the old one seen through the new
+   fields ([run_x_run]), the theorems about every state and every script are proved again.
+   ========================================================================================== *)
+
+(* ================= the current code: [iter_x] and what is built on it ================= *)
+Definition not_http_trailers (e : ev) : bool := match e with EvTrailers _ => false | _ => true end.
+Definition no_http_trailers (evs : list ev) : bool := forallb not_http_trailers evs.
+
+Lemma dp_no_http evs : only_data_or_pending evs = true -> no_http_trailers evs = true.
+Proof.
+  unfold only_data_or_pending, no_http_trailers. rewrite !forallb_forall. intros H x I.
+  specialize (H x I). destruct x; try discriminate; reflexivity.
+Qed.
+
+(* what the new fields do to the outcome of one call *)
+Definition post (e : bool) (r : out * st * inner) : out * xst * inner :=
+  let '(o, s', i') := r in
+  match o with
+  | OData d => (o, mkX s' true, i')
+  | OTrailers t => (o, mkX (set_empty s') e, i')
+  | ONone => if e then (OErr E_NoTrailers, mkX (set_empty s') e, i') else (ONone, mkX s' e, i')
+  | _ => (o, mkX s' e, i')
+  end.
+
+Definition post_step (e : bool) (r : step) : step_x :=
+  match r with
+  | Ret o s' i' => let '(o2, X2, i2) := post e (o, s', i') in RetX o2 X2 i2
+  | Cont s' i' => ContX (mkX s' e) i'
+  end.
+
+Lemma iter_x_iter s e i : no_http_trailers (i_evs i) = true ->
+  iter_x (mkX s e) i = post_step e (iter s i).
+Proof.
+  intros NT. unfold iter_x, hand_out_x, iter, x_with. cbn [xs expect].
+  pose proof (hand_out_shape s) as SH.
+  destruct (hand_out s) as [o s'|s'|s'].
+  - destruct SH as (_ & N1 & _ & N2 & _).
+    destruct o; try reflexivity; try congruence.
+  - reflexivity.
+  - subst s'. cbn [xs expect].
+    destruct (inner_done s).
+    + destruct (nonempty (decoded s)); [reflexivity|].
+      destruct (trailers s); [reflexivity|]. destruct e; reflexivity.
+    + unfold poll_inner. destruct i as [evs p en]. cbn [i_evs i_polls i_ends] in *.
+      destruct evs as [|x r]; [reflexivity|].
+      destruct x; try reflexivity. cbn in NT. discriminate.
+Qed.
+
+Lemma iter_evs s i : no_http_trailers (i_evs i) = true ->
+  match iter s i with
+  | Ret _ _ i' | Cont _ i' => no_http_trailers (i_evs i') = true
+  end.
+Proof.
+  intros NT. unfold iter. destruct (hand_out s); try exact NT.
+  destruct (inner_done s0).
+  - destruct (nonempty (decoded s0)); [exact NT|]. destruct (trailers s0); exact NT.
+  - unfold poll_inner. destruct i as [evs p en]. cbn [i_evs i_polls i_ends] in *.
+    destruct evs as [|x r]; [reflexivity|].
+    cbn [no_http_trailers forallb] in NT. apply andb_true_iff in NT as [_ NT].
+    destruct x; cbn [answer_of i_evs]; exact NT.
+Qed.
+
+Lemma loop_x_post fuel : forall s e i, no_http_trailers (i_evs i) = true ->
+  loop_x fuel (mkX s e) i = post e (loop fuel s i).
+Proof.
+  induction fuel as [|f IH]; intros s e i NT; [reflexivity|].
+  cbn [loop_x loop]. rewrite (iter_x_iter s e i NT).
+  pose proof (iter_evs s i NT) as NE.
+  destruct (iter s i) as [o s' i'|s' i']; cbn [post_step].
+  - destruct (post e (o, s', i')) as [[o2 X2] i2]. reflexivity.
+  - now apply IH.
+Qed.
+
+Lemma loop_evs fuel : forall s i o s' i', no_http_trailers (i_evs i) = true ->
+  loop fuel s i = (o, s', i') -> no_http_trailers (i_evs i') = true.
+Proof.
+  induction fuel as [|f IH]; intros s i o s' i' NT E; [injection E as <- <- <-; exact NT|].
+  cbn [loop] in E. pose proof (iter_evs s i NT) as NE.
+  destruct (iter s i) as [o1 s1 i1|s1 i1].
+  - injection E as <- <- <-. exact NE.
+  - now apply (IH _ _ _ _ _ NE E).
+Qed.
+
+(* the direction changes only with an error *)
+Lemma hand_out_dir s :
+  match hand_out s with
+  | HRet o s' => (forall e, o <> OErr e) -> dir s' = dir s
+  | HCont s' => dir s' = dir s
+  | HFall s' => s' = s
+  end.
+Proof.
+  unfold hand_out. destruct (nonempty (decoded s)); [|reflexivity].
+  destruct (trailers s); [intros H; exfalso; now apply (H E_DataAfterTrailers)|].
+  destruct (find_trailers (decoded s)) as [n| |n|f|]; try reflexivity.
+  - destruct (n =? 0).
+    + destruct (split_trailers_frame (decoded s)) as [[fr rest]|]; [|reflexivity].
+      destruct (decode_trailers_frame fr); try reflexivity. intros H. exfalso. now apply (H e).
+    + destruct (nlen (decoded s) <? n); reflexivity.
+  - destruct (n =? 0); [reflexivity|]. destruct (nlen (decoded s) <? n); reflexivity.
+  - intros H. exfalso. now apply (H (E_BadFlag f)).
+Qed.
+
+Lemma loop_dir fuel : forall s i o s' i', loop fuel s i = (o, s', i') ->
+  (forall e, o <> OErr e) -> dir s' = dir s.
+Proof.
+  induction fuel as [|f IH]; intros s i o s' i' E NE; [injection E as <- <- <-; reflexivity|].
+  cbn [loop] in E. unfold iter in E. pose proof (hand_out_dir s) as HD.
+  destruct (hand_out s) as [o1 s1|s1|s1].
+  - injection E as <- <- <-. now apply HD.
+  - rewrite <- HD. now apply (IH _ _ _ _ _ E).
+  - subst s1. destruct (inner_done s).
+    + destruct (nonempty (decoded s)); [injection E as <- <- <-; exfalso; now apply (NE E_EOF)|].
+      destruct (trailers s); injection E as <- <- <-; reflexivity.
+    + destruct (poll_inner i) as [a i1]. destruct a.
+      * injection E as <- <- <-. reflexivity.
+      * apply (IH _ _ _ _ _ E) in NE. exact NE.
+      * apply (IH _ _ _ _ _ E) in NE. exact NE.
+      * injection E as <- <- <-. exfalso. now apply (NE E_Inner).
+      * apply (IH _ _ _ _ _ E) in NE. exact NE.
+Qed.
+
+(* ---------- draining ---------- *)
+Definition drain_lx (n : nat) (X : xst) (i : inner) : list out := fst (fst (drain_x n X i)).
+
+Lemma drain_lx_S n X i :
+  drain_lx (S n) X i =
+  match poll_frame_x (fuel_of i) X i with
+  | (OPending, X', i') => drain_lx n X' i'
+  | (OData d, X', i') => OData d :: drain_lx n X' i'
+  | (OTrailers t, X', i') => OTrailers t :: drain_lx n X' i'
+  | (o, _, _) => [o]
+  end.
+Proof.
+  unfold drain_lx. cbn [drain_x]. destruct (poll_frame_x (fuel_of i) X i) as [[o X'] i'].
+  destruct o; try reflexivity; destruct (drain_x n X' i') as [[l X''] i'']; reflexivity.
+Qed.
+
+(* the items of the old model, seen through the new fields: the clean end after message frames
+   (and without trailers) is the error *)
+Fixpoint xform (e : bool) (l : list out) : list out :=
+  match l with
+  | [] => []
+  | OData d :: r => OData d :: xform true r
+  | OTrailers t :: r => OTrailers t :: r
+  | ONone :: r => match r with [] => if e then [OErr E_NoTrailers] else [ONone] | _ => ONone :: xform e r end
+  | o :: r => o :: xform e r
+  end.
+
+Lemma xform_single e o : o <> ONone -> xform e [o] = [o].
+Proof. intros A. destruct o; try reflexivity. congruence. Qed.
+
+Lemma empty_after_x n X i : dir (xs X) = Empty ->
+  drain_lx n X i = match n with O => [OOutOfFuel] | S _ => [ONone] end.
+Proof.
+  intros H. destruct n as [|n]; [reflexivity|]. rewrite drain_lx_S. unfold poll_frame_x. now rewrite H.
+Qed.
+
+Lemma fin_after n s i : inner_done s = true -> decoded s = [] -> trailers s = None ->
+  hand_out s = HFall s ->
+  drain_l n s i = match n with O => [OOutOfFuel] | S _ => [ONone] end.
+Proof.
+  intros F1 F2 F3 F4. destruct n as [|n]; [reflexivity|]. rewrite drain_l_S.
+  unfold poll_frame. destruct (dir s); [|reflexivity].
+  unfold fuel_of. rewrite Nat.add_comm. cbn [Nat.add].
+  cbn [loop]. unfold iter. now rewrite F4, F1, F2, F3.
+Qed.
+
+Lemma drain_x_xform n : forall s e i, no_http_trailers (i_evs i) = true -> dir s = Decode ->
+  drain_lx n (mkX s e) i = xform e (drain_l n s i).
+Proof.
+  induction n as [|n IH]; intros s e i NT HD; [reflexivity|].
+  rewrite drain_lx_S, drain_l_S. unfold poll_frame_x, poll_frame. cbn [xs]. rewrite HD.
+  rewrite (loop_x_post _ s e i NT).
+  destruct (loop (fuel_of i) s i) as [[o s'] i'] eqn:E.
+  pose proof (loop_evs _ _ _ _ _ _ NT E) as NT'.
+  destruct o; cbn [post xform].
+  - apply IH; [exact NT'|]. rewrite <- HD. apply (loop_dir _ _ _ _ _ _ E). discriminate.
+  - f_equal. apply IH; [exact NT'|]. rewrite <- HD. apply (loop_dir _ _ _ _ _ _ E). discriminate.
+  - f_equal. rewrite empty_after_x by reflexivity.
+    destruct (loop_progress _ _ _ _ _ _ E) as (_ & _ & _ & _ & F).
+    destruct (F t eq_refl) as (F1 & F2 & F3 & F4). now rewrite (fin_after n s' i' F1 F2 F3 F4).
+  - reflexivity.
+  - destruct e; reflexivity.
+  - reflexivity.
+  - reflexivity.
+Qed.
+
+Theorem run_x_run evs : no_http_trailers evs = true -> run_x evs = xform false (run evs).
+Proof. intros NT. apply (drain_x_xform (poll_cap evs) init false (mk_inner evs) NT eq_refl). Qed.
+
+Definition nonemptyb {A} (l : list A) : bool := match l with [] => false | _ => true end.
+
+Lemma xform_data_app ds : forall e l,
+  xform e (map OData ds ++ l) = map OData ds ++ xform (e || nonemptyb ds) l.
+Proof.
+  induction ds as [|d ds IH]; intros e l; cbn [map app nonemptyb].
+  - now rewrite orb_false_r.
+  - cbn [xform]. rewrite IH. cbn [orb]. now rewrite orb_true_r.
+Qed.
+
+(* ---------- the theorems about whole runs, for the current code ---------- *)
+Lemma xform_expected_end e tk : xform e (expected_end tk) = expected_end tk.
+Proof.
+  destruct tk as [P Y [rb|er]|h t]; cbn [expected_end]; try reflexivity.
+  destruct (nonempty Y); reflexivity.
+Qed.
+
+(* a data item is at least one whole frame *)
+Lemma drain_data_ge5 n : forall s i d, In (OData d) (drain_l n s i) -> (5 <= length d)%nat.
+Proof.
+  induction n as [|n IH]; intros s i d I.
+  - cbn in I. destruct I as [I|[]]. discriminate.
+  - rewrite drain_l_S in I. destruct (poll_frame (fuel_of i) s i) as [[o s'] i'] eqn:E.
+    unfold poll_frame in E. destruct (dir s).
+    2:{ injection E as <- <- <-. destruct I as [I|[]]. discriminate. }
+    destruct (loop_progress _ _ _ _ _ _ E) as (_ & _ & _ & D & _).
+    destruct o; try (destruct I as [I|[]]; discriminate).
+    + now apply (IH _ _ _ I).
+    + destruct I as [I|I]; [injection I as <-; now apply (D d0 eq_refl)|now apply (IH _ _ _ I)].
+    + destruct I as [I|I]; [discriminate|now apply (IH _ _ _ I)].
+Qed.
+
+Lemma concat_nil_ge5 (ds : list (list N)) :
+  (forall d, In d ds -> (5 <= length d)%nat) -> concat ds = [] -> ds = [].
+Proof.
+  destruct ds as [|d ds]; [reflexivity|]. intros H E. exfalso.
+  specialize (H d (or_introl eq_refl)). cbn [concat] in E. apply app_eq_nil in E as [E _].
+  rewrite E in H. cbn in H. lia.
+Qed.
+
+Lemma run_data_items evs ds tail : run evs = map OData ds ++ tail ->
+  forall d, In d ds -> (5 <= length d)%nat.
+Proof.
+  intros E d I. rewrite run_drain_l in E.
+  apply (drain_data_ge5 (poll_cap evs) init (mk_inner evs)). rewrite E. apply in_or_app. left.
+  now apply in_map.
+Qed.
+
+(* every chunking of a complete body: as before *)
+Theorem any_chunking_gen_x frames tl evs :
+  frames_ok frames -> trailers_ok tl = true ->
+  nlen (encode_trailers tl) <= U32_MAX -> nlen tl <= HM_MAX_NAMES ->
+  only_data_or_pending evs = true ->
+  concat (datas evs) = fcat frames ++ trailers_frame tl ->
+  exists ds, run_x evs = map OData ds ++ [OTrailers (read_back tl); ONone] /\ concat ds = fcat frames.
+Proof.
+  intros Hf Ht Hl Hc He H.
+  destruct (any_chunking_gen frames tl evs Hf Ht Hl Hc He H) as [ds [E1 E2]].
+  exists ds. split; [|exact E2].
+  now rewrite (run_x_run evs (dp_no_http evs He)), E1, xform_data_app.
+Qed.
+
+Theorem any_chunking_x frames tl evs :
+  frames_ok frames -> trailers_ok tl = true -> no_leading_space tl = true ->
+  nlen (encode_trailers tl) <= U32_MAX -> nlen tl <= HM_MAX_NAMES ->
+  only_data_or_pending evs = true ->
+  concat (datas evs) = fcat frames ++ trailers_frame tl ->
+  exists ds t,
+    run_x evs = map OData ds ++ [OTrailers t; ONone] /\ concat ds = fcat frames /\
+    t = tl /\ forall k, hm_get_all t k = hm_get_all tl k.
+Proof.
+  intros Hf Ht Hs Hl Hc He H.
+  destruct (any_chunking_gen_x frames tl evs Hf Ht Hl Hc He H) as [ds [E1 E2]].
+  exists ds, tl. rewrite (read_back_id tl Hs) in E1. repeat split; try assumption.
+Qed.
+
+(* what the old model says about a body that stops early, at ANY byte *)
+Lemma cut_any frames tl evs P U :
+  frames_ok frames -> trailers_ok tl = true ->
+  nlen (encode_trailers tl) <= U32_MAX -> nlen tl <= HM_MAX_NAMES ->
+  only_data_or_pending evs = true ->
+  P ++ U = fcat frames ++ trailers_frame tl -> U <> [] -> concat (datas evs) = P ->
+  exists ds fa fb lo, frames = fa ++ fb /\ concat ds = fcat fa /\ concat ds ++ lo = P /\
+    run evs = map OData ds ++ [if nonempty lo then OErr E_EOF else ONone].
+Proof.
+  intros Hf Ht Hl Hc He H NU HP. rewrite run_drain_l.
+  destruct (drain1_cut (tk_valid tl) (tk_valid_ok tl Ht Hl Hc) _ _ (poll_cap evs) eq_refl
+              init (mk_inner evs) frames U)
+    as (ds & fa & fb & lo & H1 & H2 & H3 & H4 & _).
+  - apply init_P1; try assumption. now rewrite HP, tk_valid_bytes.
+  - exact NU.
+  - apply init_bound.
+  - exists ds, fa, fb, lo. repeat split; try assumption.
+    unfold avail, init, mk_inner in H3. cbn [decoded i_evs app] in H3. now rewrite HP in H3.
+Qed.
+
+(* TRUNCATION AT EVERY BYTE (fix c815a16a): every non-empty strict prefix of a complete body, in
+   every chunking: whole frames, then an error - never a clean end, never trailers.  The error
+   is the EOF error when the cut is inside a frame and the missing-trailers error when it is
+   exactly between two frames (then every frame of the prefix has been delivered). *)
+Theorem truncation_any_byte frames tl evs P U :
+  frames_ok frames -> trailers_ok tl = true ->
+  nlen (encode_trailers tl) <= U32_MAX -> nlen tl <= HM_MAX_NAMES ->
+  only_data_or_pending evs = true ->
+  P ++ U = fcat frames ++ trailers_frame tl -> U <> [] -> P <> [] ->
+  concat (datas evs) = P ->
+  exists ds fa fb e,
+    frames = fa ++ fb /\ concat ds = fcat fa /\ run_x evs = map OData ds ++ [OErr e] /\
+    (e = E_EOF \/ (e = E_NoTrailers /\ P = fcat fa)).
+Proof.
+  intros Hf Ht Hl Hc He H NU NP HP.
+  destruct (cut_any frames tl evs P U Hf Ht Hl Hc He H NU HP) as (ds & fa & fb & lo & H1 & H2 & H3 & H4).
+  rewrite (run_x_run evs (dp_no_http evs He)), H4, xform_data_app.
+  destruct lo as [|x lo]; cbn [nonempty].
+  - rewrite app_nil_r in H3.
+    assert (ND : nonemptyb ds = true).
+    { destruct ds; [cbn in H3; congruence|reflexivity]. }
+    rewrite ND. cbn [orb xform].
+    exists ds, fa, fb, E_NoTrailers. repeat split; try assumption. right. split; [reflexivity|congruence].
+  - exists ds, fa, fb, E_EOF. repeat split; try assumption. now left.
+Qed.
+
+(* in particular: message frames WITHOUT a trailers frame (F-C17j): every frame, then the error *)
+Theorem no_trailers_frame_x fa evs :
+  frames_ok fa -> fa <> [] -> only_data_or_pending evs = true ->
+  concat (datas evs) = fcat fa ->
+  exists ds, run_x evs = map OData ds ++ [OErr E_NoTrailers] /\ concat ds = fcat fa.
+Proof.
+  intros Hf Nf He HP.
+  destruct (cut_between_frames fa [] evs Hf eq_refl) as (ds & E1 & E2); try assumption.
+  - unfold U32_MAX. cbn. lia.
+  - unfold HM_MAX_NAMES. cbn. lia.
+  - exists ds. split; [|exact E2].
+    rewrite (run_x_run evs (dp_no_http evs He)), E1, xform_data_app.
+    assert (ND : nonemptyb ds = true).
+    { destruct ds; [|reflexivity]. cbn in E2. destruct fa as [|x fa]; [congruence|].
+      rewrite fcat_cons in E2. unfold fbytes in E2. rewrite frame_unfold in E2. discriminate. }
+    now rewrite ND.
+Qed.
+
+(* ... while a body without a single byte (what a trailers-only response has) ends cleanly *)
+Theorem empty_body_x evs :
+  only_data_or_pending evs = true -> concat (datas evs) = [] -> run_x evs = [ONone].
+Proof.
+  intros He HP.
+  destruct (cut_between_frames [] [] evs) as (ds & E1 & E2); try assumption; try reflexivity.
+  - apply Forall_nil.
+  - unfold U32_MAX. cbn. lia.
+  - unfold HM_MAX_NAMES. cbn. lia.
+  - pose proof (run_data_items evs ds [ONone] E1) as G.
+    rewrite (concat_nil_ge5 ds G E2) in E1. cbn [map app] in E1.
+    now rewrite (run_x_run evs (dp_no_http evs He)), E1.
+Qed.
+
+(* malformed bodies: as before *)
+Theorem malformed_gen_x tk frames evs :
+  tail_ok tk -> frames_ok frames -> only_data_or_pending evs = true ->
+  concat (datas evs) = fcat frames ++ tail_bytes tk ->
+  exists ds fa fb,
+    frames = fa ++ fb /\ concat ds = fcat fa /\ run_x evs = map OData ds ++ expected_end tk /\
+    (is_bad tk = false -> fb = []).
+Proof.
+  intros Hk Hf He H.
+  destruct (malformed_gen tk frames evs Hk Hf He H) as (ds & fa & fb & A & B & C & D).
+  exists ds, fa, fb. repeat split; try assumption.
+  now rewrite (run_x_run evs (dp_no_http evs He)), C, xform_data_app, xform_expected_end.
+Qed.
+
+Lemma run_x_err evs ds e : only_data_or_pending evs = true ->
+  run evs = map OData ds ++ [OErr e] -> run_x evs = map OData ds ++ [OErr e].
+Proof. intros He E. now rewrite (run_x_run evs (dp_no_http evs He)), E, xform_data_app. Qed.
+
+Theorem malformed_bad_flag_x frames h t evs :
+  frames_ok frames -> h <> 0 -> h <> 1 -> h <> GRPC_WEB_TRAILERS_BIT -> 4 <= nlen t ->
+  only_data_or_pending evs = true ->
+  concat (datas evs) = fcat frames ++ h :: t ->
+  exists ds fa fb,
+    frames = fa ++ fb /\ concat ds = fcat fa /\ run_x evs = map OData ds ++ [OErr (E_BadFlag h)].
+Proof.
+  intros Hf H0 H1 H128 Ht He H.
+  destruct (malformed_bad_flag frames h t evs Hf H0 H1 H128 Ht He H) as (ds & fa & fb & A & B & C).
+  exists ds, fa, fb. repeat split; try assumption. now apply run_x_err.
+Qed.
+
+Theorem malformed_after_trailers_x frames tl Y evs :
+  frames_ok frames -> trailers_ok tl = true ->
+  nlen (encode_trailers tl) <= U32_MAX -> nlen tl <= HM_MAX_NAMES -> Y <> [] ->
+  only_data_or_pending evs = true ->
+  concat (datas evs) = fcat frames ++ trailers_frame tl ++ Y ->
+  exists ds, run_x evs = map OData ds ++ [OErr E_DataAfterTrailers] /\ concat ds = fcat frames.
+Proof.
+  intros Hf Ht Hl Hc NY He H.
+  destruct (malformed_after_trailers frames tl Y evs Hf Ht Hl Hc NY He H) as (ds & A & B).
+  exists ds. split; [now apply run_x_err|exact B].
+Qed.
+
+Theorem malformed_trailers_block_x frames P e evs :
+  frames_ok frames -> nlen P <= U32_MAX ->
+  decode_trailers_frame (frame GRPC_WEB_TRAILERS_BIT P) = DErr e ->
+  only_data_or_pending evs = true ->
+  concat (datas evs) = fcat frames ++ frame GRPC_WEB_TRAILERS_BIT P ->
+  exists ds, run_x evs = map OData ds ++ [OErr e] /\ concat ds = fcat frames.
+Proof.
+  intros Hf Hl Hd He H.
+  destruct (malformed_trailers_block frames P e evs Hf Hl Hd He H) as (ds & A & B).
+  exists ds. split; [now apply run_x_err|exact B].
+Qed.
+
+Theorem malformed_line_without_colon_x frames tl line rest evs :
+  frames_ok frames -> trailers_ok tl = true -> nlen tl < HM_MAX_NAMES ->
+  (forall x, In x line -> x <> 58 /\ x <> 13) ->
+  let P := encode_trailers tl ++ line ++ 13 :: 10 :: rest in
+  nlen P <= U32_MAX ->
+  only_data_or_pending evs = true ->
+  concat (datas evs) = fcat frames ++ frame GRPC_WEB_TRAILERS_BIT P ->
+  exists ds, run_x evs = map OData ds ++ [OErr E_NoValue] /\ concat ds = fcat frames.
+Proof.
+  intros Hf Ht Hc Hline P Hl He H.
+  destruct (malformed_line_without_colon frames tl line rest evs Hf Ht Hc Hline Hl He H) as (ds & A & B).
+  exists ds. split; [now apply run_x_err|exact B].
+Qed.
+
+(* ================= every state, every script: the current code ================= *)
+Definition good_x (X : xst) (i : inner) : Prop := good (xs X) i.
+
+Lemma good_init_x evs : good_x init_x (mk_inner evs).
+Proof. apply good_init. Qed.
+
+(* a panic of HeaderMap::extend needs a full map *)
+Lemma extend_walk_full ks : forall known, extend_walk known ks = true ->
+  HM_MAX_NAMES <= nlen known + nlen ks.
+Proof.
+  induction ks as [|k r IH]; intros known H; cbn [extend_walk] in H; [discriminate|].
+  rewrite nlen_cons.
+  destruct (nlen known =? HM_MAX_NAMES) eqn:E; [lia|].
+  apply IH in H. destruct (existsb (bytes_eqb k) known); [lia|].
+  rewrite nlen_app, nlen_cons, nlen_nil in H. lia.
+Qed.
+
+Definition extend_overflow : Prop :=
+  exists cur t, extend_panics cur t = true /\ HM_MAX_NAMES <= nlen (names_of cur) + nlen (names_of t).
+
+Lemma loop_general_x fuel : forall X i, (mu (xs X) i < fuel)%nat -> good_x X i ->
+  forall o X' i', loop_x fuel X i = (o, X', i') ->
+    o <> OOutOfFuel /\ good_x X' i' /\
+    i_polls i' + N.of_nat (length (i_evs i')) + i_ends i = i_polls i + N.of_nat (length (i_evs i)) + i_ends i' /\
+    i_ends i <= i_ends i' /\
+    (forall e, o = OErr e -> dir (xs X') = Empty) /\
+    (forall t, o = OTrailers t -> dir (xs X') = Empty) /\
+    (o = ONone -> inner_done (xs X') = true /\ decoded (xs X') = [] /\ trailers (xs X') = None /\
+                  hand_out (xs X') = HFall (xs X') /\ expect X' = false).
+Proof.
+  induction fuel as [|f IH]; intros [s ex] i Hm Hg o X' i' E; [lia|].
+  unfold good_x in *. cbn [xs expect] in *.
+  cbn [loop_x] in E. unfold iter_x, hand_out_x, x_with in E. cbn [xs expect] in E.
+  pose proof (hand_out_shape s) as SH.
+  destruct (hand_out s) as [o1 s1|s1|s1] eqn:EH.
+  - destruct SH as (A & B & C & D & F & G & _).
+    assert (Hg1 : good s1 i) by (unfold good in *; rewrite G; exact Hg).
+    destruct o1; injection E as <- <- <-; cbn [xs expect];
+      repeat split; try assumption; try lia; try discriminate; try congruence.
+    all: try (intros e0 [= <-]; now apply (F _ eq_refl)).
+    all: try (intros t0 Ht; exfalso; now apply (D t0)).
+  - destruct SH as (A & [t B] & C & D).
+    apply (IH (mkX s1 ex) i) in E.
+    + exact E.
+    + cbn [xs]. unfold mu in *. rewrite C, B. rewrite A in Hm. lia.
+    + cbn [xs]. unfold good in *. now rewrite C.
+  - subst s1. cbn [xs expect] in E.
+    destruct (inner_done s) eqn:Ed.
+    + destruct (nonempty (decoded s)) eqn:En.
+      * injection E as <- <- <-. cbn [xs expect]. repeat split; try discriminate; try lia; try reflexivity.
+        unfold good in *. cbn [set_empty inner_done]. exact Hg.
+      * destruct (trailers s) eqn:Et.
+        -- injection E as <- <- <-. cbn [xs expect]. repeat split; try discriminate; try lia; try reflexivity.
+           unfold good in *. cbn. exact Hg.
+        -- destruct ex; injection E as <- <- <-; cbn [xs expect].
+           ++ repeat split; try discriminate; try lia; try reflexivity.
+              unfold good in *. cbn [set_empty inner_done]. exact Hg.
+           ++ repeat split; try discriminate; try lia; try assumption; try reflexivity.
+              now apply nonempty_false.
+    + destruct Hg as [[_ Hg]|[Hg _]]; [|congruence].
+      unfold poll_inner in E. destruct i as [evs p e]. cbn [i_evs i_polls i_ends] in *. subst e.
+      destruct evs as [|x r].
+      * cbn [answer_of] in E. apply (IH (mkX (set_done s) ex) _) in E.
+        -- destruct E as (A & B & C & D & F & G & H). cbn [i_evs i_polls i_ends length xs] in *.
+           split; [exact A|]. split; [exact B|]. split; [lia|]. split; [lia|]. split; [exact F|]. split; [exact G|exact H].
+        -- cbn [xs]. unfold mu in *. cbn [set_done inner_done trailers i_evs length] in *. rewrite Ed in Hm. lia.
+        -- cbn [xs]. right. cbn. split; [reflexivity|lia].
+      * destruct x as [|d|t|]; cbn [answer_of] in E.
+        -- injection E as <- <- <-. cbn [i_evs i_polls i_ends length xs expect].
+           repeat split; try discriminate; try lia. left. split; [exact Ed|reflexivity].
+        -- apply (IH (mkX _ ex) _) in E.
+           ++ destruct E as (A & B & C & D & F & G & H). cbn [i_evs i_polls i_ends length xs] in *.
+              split; [exact A|]. split; [exact B|]. split; [lia|]. split; [lia|]. split; [exact F|]. split; [exact G|exact H].
+           ++ cbn [xs]. unfold mu in *. cbn [set_decoded inner_done trailers i_evs length] in *.
+              rewrite Ed in Hm. rewrite Ed. lia.
+           ++ cbn [xs]. left. cbn. split; [exact Ed|reflexivity].
+        -- destruct (trailers s) as [cur|] eqn:Et.
+           ++ destruct (extend_panics cur t).
+              ** injection E as <- <- <-. cbn [i_evs i_polls i_ends length xs expect].
+                 repeat split; try discriminate; try lia. left. split; [exact Ed|reflexivity].
+              ** apply (IH (mkX _ ex) _) in E.
+                 --- destruct E as (A & B & C & D & F & G & H). cbn [i_evs i_polls i_ends length xs] in *.
+                     split; [exact A|]. split; [exact B|]. split; [lia|]. split; [lia|]. split; [exact F|]. split; [exact G|exact H].
+                 --- cbn [xs]. unfold mu in *. cbn [set_trailers inner_done trailers i_evs length] in *.
+                     rewrite Ed in Hm. rewrite Ed. rewrite Et in Hm. lia.
+                 --- cbn [xs]. left. cbn. split; [exact Ed|reflexivity].
+           ++ apply (IH (mkX _ ex) _) in E.
+              ** destruct E as (A & B & C & D & F & G & H). cbn [i_evs i_polls i_ends length xs] in *.
+                 split; [exact A|]. split; [exact B|]. split; [lia|]. split; [lia|]. split; [exact F|]. split; [exact G|exact H].
+              ** cbn [xs]. unfold mu in *. cbn [set_trailers inner_done trailers i_evs length] in *.
+                 rewrite Ed in Hm. rewrite Ed. rewrite Et in Hm. lia.
+              ** cbn [xs]. left. cbn. split; [exact Ed|reflexivity].
+        -- injection E as <- <- <-. cbn [i_evs i_polls i_ends length xs expect].
+           repeat split; try discriminate; try lia; try reflexivity.
+           left. cbn. split; [exact Ed|reflexivity].
+Qed.
+
+(* no busy loop: the fuel is never exhausted, one call polls the wrapped body at most once per
+   remaining event plus once for its end, and the end is asked for at most once ever *)
+Theorem no_busy_loop_x X i fuel o X' i' :
+  (length (i_evs i) + 3 <= fuel)%nat -> good_x X i ->
+  poll_frame_x fuel X i = (o, X', i') ->
+  o <> OOutOfFuel /\ good_x X' i' /\ i_ends i' <= 1 /\
+  i_polls i' <= i_polls i + N.of_nat (length (i_evs i)) + 1.
+Proof.
+  intros Hf Hg E. unfold poll_frame_x in E. destruct (dir (xs X)).
+  - assert (Hm : (mu (xs X) i < fuel)%nat) by (pose proof (mu_fuel (xs X) i); unfold fuel_of in *; lia).
+    destruct (loop_general_x fuel X i Hm Hg o X' i' E) as (A & B & C & D & _).
+    assert (i_ends i' <= 1) by (destruct B as [[_ B]|[_ B]]; lia).
+    assert (i_ends i <= 1) by (destruct Hg as [[_ G]|[_ G]]; lia).
+    repeat split; try assumption; lia.
+  - injection E as <- <- <-.
+    assert (i_ends i <= 1) by (destruct Hg as [[_ G]|[_ G]]; lia).
+    repeat split; try assumption; try discriminate; lia.
+Qed.
+
+(* an error is final, and so are the trailers: the direction becomes Empty and every later poll
+   answers None without touching the wrapped body *)
+Theorem error_final_x X i fuel e X' i' :
+  (length (i_evs i) + 3 <= fuel)%nat -> good_x X i ->
+  poll_frame_x fuel X i = (OErr e, X', i') ->
+  dir (xs X') = Empty /\ forall fuel2, poll_frame_x fuel2 X' i' = (ONone, X', i').
+Proof.
+  intros Hf Hg E. unfold poll_frame_x in E. destruct (dir (xs X)) eqn:Ed; [|discriminate].
+  assert (Hm : (mu (xs X) i < fuel)%nat) by (pose proof (mu_fuel (xs X) i); unfold fuel_of in *; lia).
+  destruct (loop_general_x fuel X i Hm Hg _ X' i' E) as (_ & _ & _ & _ & F & _).
+  specialize (F e eq_refl). split; [exact F|]. intros f2. unfold poll_frame_x. now rewrite F.
+Qed.
+
+Theorem trailers_final_x X i fuel t X' i' :
+  (length (i_evs i) + 3 <= fuel)%nat -> good_x X i ->
+  poll_frame_x fuel X i = (OTrailers t, X', i') ->
+  dir (xs X') = Empty /\ forall fuel2, poll_frame_x fuel2 X' i' = (ONone, X', i').
+Proof.
+  intros Hf Hg E. unfold poll_frame_x in E. destruct (dir (xs X)) eqn:Ed; [|discriminate].
+  assert (Hm : (mu (xs X) i < fuel)%nat) by (pose proof (mu_fuel (xs X) i); unfold fuel_of in *; lia).
+  destruct (loop_general_x fuel X i Hm Hg _ X' i' E) as (_ & _ & _ & _ & _ & F & _).
+  specialize (F t eq_refl). split; [exact F|]. intros f2. unfold poll_frame_x. now rewrite F.
+Qed.
+
+(* the end is final as well *)
+Theorem end_final_x X i fuel X' i' :
+  (length (i_evs i) + 3 <= fuel)%nat -> good_x X i ->
+  poll_frame_x fuel X i = (ONone, X', i') ->
+  forall fuel2, (1 <= fuel2)%nat -> poll_frame_x fuel2 X' i' = (ONone, X', i').
+Proof.
+  intros Hf Hg E f2 L2. unfold poll_frame_x in E. destruct (dir (xs X)) eqn:Ed.
+  - assert (Hm : (mu (xs X) i < fuel)%nat) by (pose proof (mu_fuel (xs X) i); unfold fuel_of in *; lia).
+    destruct (loop_general_x fuel X i Hm Hg _ X' i' E) as (_ & _ & _ & _ & _ & _ & G).
+    destruct (G eq_refl) as (G1 & G2 & G3 & G4 & G5).
+    destruct X' as [s' e']. cbn [xs expect] in G1, G2, G3, G4, G5. subst e'.
+    unfold poll_frame_x. cbn [xs]. destruct (dir s'); [|reflexivity].
+    destruct f2 as [|f2]; [lia|]. cbn [loop_x]. unfold iter_x, hand_out_x, x_with. cbn [xs expect].
+    rewrite G4. cbn [xs expect]. rewrite G1, G2, G3. reflexivity.
+  - injection E as <- <-. unfold poll_frame_x. now rewrite Ed.
+Qed.
+
+(* Body::is_end_stream keeps the http_body contract (over a wrapped body that answers true only at
+   its own end): whenever it answers true the next poll returns None, in EVERY state - with
+   expect_trailers set it answers false, because an error (or the trailers) is still to come *)
+Theorem is_end_stream_contract_x X i fuel :
+  call_is_end_stream_x 1 X i = true -> (2 <= fuel)%nat ->
+  fst (fst (poll_frame_x fuel X i)) = ONone.
+Proof.
+  unfold call_is_end_stream_x, poll_frame_x. destruct X as [s ex]. cbn [xs expect].
+  destruct (dir s); [|reflexivity].
+  intros H L. apply andb_true_iff in H as [H Hx]. apply andb_true_iff in H as [H Ht].
+  apply andb_true_iff in H as [He Hd].
+  apply negb_true_iff, nonempty_false in Hd. apply negb_true_iff in Hx. subst ex.
+  destruct (trailers s) eqn:Et; [discriminate|].
+  unfold inner_eos in He. change (1 =? 1) with true in He. cbv iota in He.
+  destruct i as [evs p e]. cbn [i_evs] in He. destruct evs; [|discriminate].
+  destruct fuel as [|[|f]]; try lia.
+  cbn [loop_x]. unfold iter_x, hand_out_x, x_with. cbn [xs expect].
+  rewrite (hand_out_empty s Hd). cbn [xs expect].
+  destruct (inner_done s) eqn:Ed.
+  - rewrite Hd, Et. reflexivity.
+  - cbn [poll_inner i_evs answer_of]. unfold iter_x, hand_out_x, x_with. cbn [xs expect].
+    rewrite (hand_out_done_fall _ (hand_out_empty s Hd)). cbn [xs expect set_done inner_done decoded trailers].
+    rewrite Hd, Et. reflexivity.
+Qed.
+
+(* ---------- panics ---------- *)
+Lemma loop_panic_x fuel : forall X i X' i', loop_x fuel X i = (OPanic, X', i') ->
+  (exists fr, decode_trailers_frame fr = DPanic) \/ extend_overflow.
+Proof.
+  induction fuel as [|f IH]; intros [s ex] i X' i' E; [discriminate|].
+  cbn [loop_x] in E. unfold iter_x, hand_out_x, x_with in E. cbn [xs expect] in E.
+  pose proof (hand_out_shape s) as SH.
+  destruct (hand_out s) as [o1 s1|s1|s1] eqn:EH.
+  - destruct SH as (_ & _ & _ & _ & _ & _ & P).
+    destruct o1; try discriminate.
+    destruct (P eq_refl) as [(fr & rest & _ & D)|(n & B & L)].
+    + left. now exists fr.
+    + apply find_trailers_bound in B. lia.
+  - now apply IH in E.
+  - cbn [xs expect] in E. destruct (inner_done s1).
+    + destruct (nonempty (decoded s1)); [discriminate|]. destruct (trailers s1); [discriminate|].
+      destruct ex; discriminate.
+    + destruct (poll_inner i) as [a i1]. destruct a; try discriminate; try (now apply IH in E).
+      destruct (trailers s1) as [cur|]; [|now apply IH in E].
+      destruct (extend_panics cur t) eqn:EP; [|now apply IH in E].
+      right. exists cur, t. split; [exact EP|]. now apply extend_walk_full.
+Qed.
+
+(* the only ways to a panic are the capacity of http::HeaderMap: a buffered trailers frame with
+   more than 24576 lines (append), or HTTP trailers of the wrapped body merged into a map that
+   reaches 24576 names (extend) *)
+Theorem panic_needs_full_map_x fuel X i X' i' :
+  poll_frame_x fuel X i = (OPanic, X', i') ->
+  (exists fr, HM_MAX_NAMES < nlen (split_crlf [] (ndrop 5 fr))) \/ extend_overflow.
+Proof.
+  unfold poll_frame_x. destruct (dir (xs X)); [|discriminate]. intros E.
+  destruct (loop_panic_x _ _ _ _ _ E) as [[fr D]|O]; [left|right; exact O].
+  exists fr. now apply decode_panic_many_lines.
+Qed.
+
+(* without HTTP trailers of the wrapped body the second way does not exist *)
+
+(* ================= no hang, for every script: the current code ================= *)
+Definition avail_len_x (X : xst) (i : inner) : nat := avail_len (xs X) i.
+
+Lemma loop_progress_x fuel : forall X i o X' i', loop_x fuel X i = (o, X', i') ->
+  (length (i_evs i') <= length (i_evs i))%nat /\ (avail_len_x X' i' <= avail_len_x X i)%nat /\
+  (o = OPending -> (length (i_evs i') < length (i_evs i))%nat) /\
+  (forall d, o = OData d -> (5 <= length d)%nat /\ (avail_len_x X' i' + length d <= avail_len_x X i)%nat).
+Proof.
+  induction fuel as [|f IH]; intros [s ex] i o X' i' E.
+  { cbn in E. injection E as <- <- <-.
+    split; [lia|]. split; [lia|]. split; [discriminate|]. intros ? ?; discriminate. }
+  cbn [loop_x] in E. unfold iter_x, hand_out_x, x_with in E. cbn [xs expect] in E.
+  unfold avail_len_x in *. cbn [xs] in *.
+  pose proof (hand_out_progress s) as HP. pose proof (hand_out_shape s) as SH.
+  assert (Cont_case : forall X2 i2,
+            (length (i_evs i2) <= length (i_evs i))%nat -> (avail_len (xs X2) i2 <= avail_len s i)%nat ->
+            loop_x f X2 i2 = (o, X', i') ->
+            (length (i_evs i') <= length (i_evs i))%nat /\ (avail_len (xs X') i' <= avail_len s i)%nat /\
+            (o = OPending -> (length (i_evs i') < length (i_evs i))%nat) /\
+            (forall d, o = OData d -> (5 <= length d)%nat /\ (avail_len (xs X') i' + length d <= avail_len s i)%nat)).
+  { intros X2 i2 L1 L2 E2. apply IH in E2. unfold avail_len_x in E2. destruct E2 as (A & B & C & D).
+    split; [lia|]. split; [lia|]. split; [intros Ho; specialize (C Ho); lia|].
+    intros d Hd. destruct (D d Hd). split; lia. }
+  destruct (hand_out s) as [o1 s1|s1|s1] eqn:EH.
+  - destruct HP as [P1' P2']. destruct SH as (_ & _ & NP & _).
+    assert (R : (length (i_evs i) <= length (i_evs i))%nat /\ (avail_len s1 i <= avail_len s i)%nat /\
+                (o1 = OPending -> (length (i_evs i) < length (i_evs i))%nat) /\
+                (forall d, o1 = OData d -> (5 <= length d)%nat /\ (avail_len s1 i + length d <= avail_len s i)%nat)).
+    { unfold avail_len. split; [lia|]. split; [lia|]. split; [congruence|].
+      intros d Hd. destruct (P2' d Hd). split; lia. }
+    destruct o1; injection E as <- <- <-; cbn [xs]; exact R.
+  - apply (Cont_case (mkX s1 ex) i); try lia; try exact E. cbn [xs]. unfold avail_len. lia.
+  - subst s1. cbn [xs expect] in E. destruct (inner_done s) eqn:Ed.
+    + destruct (nonempty (decoded s)) eqn:En.
+      * injection E as <- <- <-. cbn [xs]. unfold avail_len. cbn [set_empty decoded].
+        split; [lia|]. split; [lia|]. split; [discriminate|]. intros ? ?; discriminate.
+      * destruct (trailers s) eqn:Et.
+        -- injection E as <- <- <-. cbn [xs]. unfold avail_len. cbn [set_empty set_trailers decoded].
+           split; [lia|]. split; [lia|]. split; [discriminate|]. intros ? ?; discriminate.
+        -- destruct ex; injection E as <- <- <-; cbn [xs]; unfold avail_len; cbn [set_empty decoded];
+             (split; [lia|]; split; [lia|]; split; [discriminate|]; intros ? ?; discriminate).
+    + unfold poll_inner in E. destruct i as [evs p e]. cbn [i_evs i_polls i_ends] in *.
+      destruct evs as [|x r].
+      * cbn [answer_of] in E. apply (Cont_case _ _) in E; [exact E|cbn; lia|].
+        cbn [xs]. unfold avail_len. cbn [set_done decoded i_evs]. lia.
+      * destruct x as [|d0|t0|]; cbn [answer_of] in E.
+        -- injection E as <- <- <-. cbn [xs]. unfold avail_len. cbn [i_evs datas length].
+           split; [lia|]. split; [lia|]. split; [intros _; lia|]. intros ? ?; discriminate.
+        -- apply (Cont_case _ _) in E; [exact E|cbn; lia|].
+           cbn [xs]. unfold avail_len. cbn [set_decoded decoded i_evs datas concat]. rewrite !app_length. lia.
+        -- destruct (trailers s) as [cur|].
+           ++ destruct (extend_panics cur t0).
+              ** injection E as <- <- <-. cbn [xs]. unfold avail_len. cbn [i_evs datas length].
+                 split; [lia|]. split; [lia|]. split; [discriminate|]. intros ? ?; discriminate.
+              ** apply (Cont_case _ _) in E; [exact E|cbn; lia|].
+                 cbn [xs]. unfold avail_len. cbn [set_trailers decoded i_evs datas]. lia.
+           ++ apply (Cont_case _ _) in E; [exact E|cbn; lia|].
+              cbn [xs]. unfold avail_len. cbn [set_trailers decoded i_evs datas]. lia.
+        -- injection E as <- <- <-. cbn [xs]. unfold avail_len. cbn [set_empty decoded i_evs datas length].
+           split; [lia|]. split; [lia|]. split; [discriminate|]. intros ? ?; discriminate.
+Qed.
+
+Lemma drain_never_hangs_x n : forall X i, good_x X i ->
+  (length (i_evs i) + avail_len_x X i / 5 + 2 <= n)%nat ->
+  ~ In OOutOfFuel (drain_lx n X i).
+Proof.
+  induction n as [|n IH]; intros X i Hg L; [lia|].
+  rewrite drain_lx_S.
+  destruct (poll_frame_x (fuel_of i) X i) as [[o X'] i'] eqn:E.
+  destruct (no_busy_loop_x X i (fuel_of i) o X' i' ltac:(unfold fuel_of; lia) Hg E) as (NF & Hg' & _).
+  pose proof E as E0.
+  unfold poll_frame_x in E. destruct (dir (xs X)) eqn:Ed.
+  2:{ injection E as <- <- <-. cbn. intros [H|[]]. discriminate. }
+  pose proof (loop_progress_x _ _ _ _ _ _ E) as (A & B & C & D).
+  destruct o; try (cbn; intros [H|[]]; congruence).
+  - apply IH; [exact Hg'|]. specialize (C eq_refl).
+    assert (avail_len_x X' i' / 5 <= avail_len_x X i / 5)%nat by (apply Nat.div_le_mono; lia). lia.
+  - destruct (D d eq_refl) as [D1 D2]. intros [H|H]; [discriminate|]. revert H.
+    apply IH; [exact Hg'|].
+    assert (avail_len_x X' i' / 5 + 1 <= avail_len_x X i / 5)%nat.
+    { replace (avail_len_x X' i' / 5 + 1)%nat with ((avail_len_x X' i' + 1 * 5) / 5)%nat
+        by (rewrite Nat.div_add by lia; reflexivity).
+      apply Nat.div_le_mono; lia. }
+    lia.
+  - destruct (trailers_final_x X i (fuel_of i) t X' i' ltac:(unfold fuel_of; lia) Hg E0) as [F _].
+    intros [H|H]; [discriminate|]. revert H.
+    rewrite (empty_after_x n X' i' F). destruct n as [|n]; [lia|]. cbn. intros [H|[]]. discriminate.
+Qed.
+
+(* EVERY script - malformed bodies, errors and HTTP trailers of the wrapped body included - is
+   drained within the poll budget: the consumer reaches the end, an error (or the explicit
+   capacity panic), never a hang *)
+Theorem never_hangs_x evs : ~ In OOutOfFuel (run_x evs).
+Proof.
+  apply drain_never_hangs_x; [apply good_init_x|].
+  unfold poll_cap, avail_len_x, avail_len, init_x, init, mk_inner. cbn [xs i_evs decoded length]. lia.
+Qed.
+
+(* ================= an error of the wrapped body is never a clean end ================= *)
+Definition err_ahead (X : xst) (i : inner) : Prop :=
+  dir (xs X) = Decode /\ inner_done (xs X) = false /\ In EvErr (i_evs i).
+
+Definition is_failure (o : out) : Prop := (exists e, o = OErr e) \/ o = OPanic \/ o = OOutOfFuel.
+
+Lemma loop_err_ahead fuel : forall X i o X' i', err_ahead X i -> loop_x fuel X i = (o, X', i') ->
+  ((o = OPending \/ exists d, o = OData d) /\ err_ahead X' i') \/ is_failure o.
+Proof.
+  induction fuel as [|f IH]; intros [s ex] i o X' i' (Hd & Hn & Hi) E.
+  { injection E as <- <- <-. right. right. now right. }
+  cbn [xs] in *. cbn [loop_x] in E. unfold iter_x, hand_out_x, x_with in E. cbn [xs expect] in E.
+  pose proof (hand_out_shape s) as SH. pose proof (hand_out_dir s) as HD.
+  destruct (hand_out s) as [o1 s1|s1|s1] eqn:EH.
+  - destruct SH as (A & B & C & D & F & G & _).
+    destruct o1; injection E as <- <- <-; try congruence.
+    + left. split; [right; now exists d|]. repeat split; cbn [xs]; try congruence.
+      rewrite <- Hd. apply HD. discriminate.
+    + right. left. now exists e.
+    + right. right. now left.
+  - destruct SH as (_ & _ & C & D). apply (IH (mkX s1 ex) i) in E; [exact E|].
+    repeat split; cbn [xs]; congruence.
+  - subst s1. cbn [xs expect] in E. rewrite Hn in E.
+    unfold poll_inner in E. destruct i as [evs p e]. cbn [i_evs i_polls i_ends] in *.
+    destruct evs as [|x r]; [destruct Hi|].
+    destruct x as [|d|t|]; cbn [answer_of] in E.
+    + injection E as <- <- <-. left. split; [now left|]. repeat split; cbn [xs i_evs]; try assumption.
+      destruct Hi as [Hi|Hi]; [discriminate|exact Hi].
+    + apply (IH (mkX _ ex) _) in E; [exact E|]. repeat split; cbn [xs i_evs set_decoded dir inner_done]; try assumption.
+      destruct Hi as [Hi|Hi]; [discriminate|exact Hi].
+    + destruct (trailers s) as [cur|].
+      * destruct (extend_panics cur t).
+        -- injection E as <- <- <-. right. right. now left.
+        -- apply (IH (mkX _ ex) _) in E; [exact E|]. repeat split; cbn [xs i_evs set_trailers dir inner_done]; try assumption.
+           destruct Hi as [Hi|Hi]; [discriminate|exact Hi].
+      * apply (IH (mkX _ ex) _) in E; [exact E|]. repeat split; cbn [xs i_evs set_trailers dir inner_done]; try assumption.
+        destruct Hi as [Hi|Hi]; [discriminate|exact Hi].
+    + injection E as <- <- <-. right. left. now exists E_Inner.
+Qed.
+
+Lemma drain_err_ahead n : forall X i, err_ahead X i ->
+  exists l o, drain_lx n X i = l ++ [o] /\ (forall x, In x l -> exists d, x = OData d) /\ is_failure o.
+Proof.
+  induction n as [|n IH]; intros X i H.
+  - exists [], OOutOfFuel. split; [reflexivity|]. split; [intros x []|]. right. now right.
+  - rewrite drain_lx_S. pose proof H as (Hd & _). unfold poll_frame_x. rewrite Hd.
+    destruct (loop_x (fuel_of i) X i) as [[o X'] i'] eqn:E.
+    destruct (loop_err_ahead _ _ _ _ _ _ H E) as [[[->|[d ->]] H']|F].
+    + now apply IH.
+    + destruct (IH X' i' H') as (l & o & E1 & E2 & E3).
+      exists (OData d :: l), o. split; [now rewrite E1|]. split; [|exact E3].
+      intros x [<-|I]; [now exists d|now apply E2].
+    + exists [], o. split; [|split; [intros x []|exact F]].
+      destruct F as [[e ->]|[->| ->]]; reflexivity.
+Qed.
+
+(* EVERY script in which the wrapped body fails at some point: message frames may be delivered,
+   then the run ends with an error (or the explicit capacity panic) - never with a clean end,
+   never with trailers *)
+Theorem inner_error_never_clean pre post :
+  exists l o, run_x (pre ++ EvErr :: post) = l ++ [o] /\
+    (forall x, In x l -> exists d, x = OData d) /\ ((exists e, o = OErr e) \/ o = OPanic).
+Proof.
+  destruct (drain_err_ahead (poll_cap (pre ++ EvErr :: post)) init_x (mk_inner (pre ++ EvErr :: post)))
+    as (l & o & E1 & E2 & E3).
+  - repeat split. cbn [mk_inner i_evs]. apply in_or_app. right. now left.
+  - exists l, o. split; [exact E1|]. split; [exact E2|].
+    destruct E3 as [E3|[E3|E3]]; [now left|now right|].
+    exfalso. apply (never_hangs_x (pre ++ EvErr :: post)). unfold run_x. fold (drain_lx (poll_cap (pre ++ EvErr :: post)) init_x (mk_inner (pre ++ EvErr :: post))).
+    rewrite E1, E3. apply in_or_app. right. now left.
+Qed.
+
+(* ================= Body::size_hint ================= *)
+(* the hint is sound in every state: its lower bound is 0, and the only upper bound it ever
+   gives (exactly 0, direction Empty) is given when no frame follows any more *)
+Theorem size_hint_sound X i fuel :
+  fst (call_size_hint X) = 0 /\
+  (forall u, snd (call_size_hint X) = Some u -> u = 0 /\ poll_frame_x fuel X i = (ONone, X, i)).
+Proof.
+  unfold call_size_hint, poll_frame_x. destruct (dir (xs X)); cbn [fst snd].
+  - split; [reflexivity|]. intros u [=].
+  - split; [reflexivity|]. intros u [= <-]. split; reflexivity.
+Qed.
+
+(* ================= the caller's view (tonic's client over this body) ================= *)
+From Verif Require Gen.StatusTables Gen.CompressionTables Model.Status Model.Decoder Model.Call.
+From Verif Require Proofs.Decoder Proofs.Codec Proofs.Call.
+
+(* message frames as tonic's decoder needs them: not compressed *)
+Definition plain_frames (ps : list (list N)) : list msg := map (fun p => (0, p)) ps.
+
+Lemma plain_frames_ok ps : Forall (fun p => nlen p <= Decoder.DEFAULT_MAX_RECV_MESSAGE_SIZE) ps ->
+  frames_ok (plain_frames ps).
+Proof.
+  unfold frames_ok, plain_frames. rewrite Forall_map. apply Forall_impl. intros p H.
+  unfold msg_ok. cbn [fst snd]. split; [now left|].
+  unfold Decoder.DEFAULT_MAX_RECV_MESSAGE_SIZE, U32_MAX in *. lia.
+Qed.
+
+Lemma script_of_complete ds rb :
+  flat_map bev_of (map OData ds ++ [OTrailers rb; ONone]) = map Decoder.BData ds ++ [Decoder.BTrailers rb].
+Proof.
+  rewrite flat_map_app. f_equal. induction ds as [|d ds IH]; [reflexivity|]. cbn [map flat_map bev_of app].
+  now rewrite IH.
+Qed.
+
+Lemma only_dp_data ds : Decoder.only_dp (map Decoder.BData ds).
+Proof. unfold Decoder.only_dp. rewrite Forall_map. apply Forall_forall. intros; exact I. Qed.
+
+Lemma plain_raw ps : concat (map Decoder.raw (plain_frames ps)) = fcat (plain_frames ps).
+Proof. reflexivity. Qed.
+
+Lemma plain_good ps : Forall (fun p => nlen p <= Decoder.DEFAULT_MAX_RECV_MESSAGE_SIZE) ps ->
+  Forall2 (Decoder.good Call.deser_id Call.no_decompress Decoder.DEFAULT_MAX_RECV_MESSAGE_SIZE None)
+          (plain_frames ps) ps.
+Proof.
+  induction 1 as [|p ps Hp _ IH]; cbn [plain_frames map]; constructor; [|exact IH].
+  unfold Decoder.good, Decoder.frame_msg. cbn [snd]. change (0 =? 0) with true. cbv iota.
+  split; [reflexivity|]. unfold Decoder.U32, Decoder.DEFAULT_MAX_RECV_MESSAGE_SIZE in *. lia.
+Qed.
+
+Lemma fcat_plain_len ps : (5 * length ps <= length (fcat (plain_frames ps)))%nat.
+Proof.
+  induction ps as [|p ps IH]; [cbn; lia|].
+  cbn [plain_frames map]. fold (plain_frames ps). rewrite fcat_cons, app_length.
+  unfold fbytes. rewrite frame_length. cbn [length]. lia.
+Qed.
+
+Lemma data_len_sum ds tail :
+  list_sum (map data_len (map OData ds ++ tail)) = (length (concat ds) + list_sum (map data_len tail))%nat.
+Proof.
+  induction ds as [|d ds IH]; [reflexivity|]. cbn [map app].
+  change (list_sum (data_len (OData d) :: map data_len (map OData ds ++ tail)))
+    with (length d + list_sum (map data_len (map OData ds ++ tail)))%nat.
+  rewrite IH. cbn [concat]. rewrite app_length. lia.
+Qed.
+
+(* CALLER SEES THE SERVER'S REAL STATUS.  Any messages [ps], ANY trailer list [tl], EVERY chunking
+   of the grpc-web body with Pending anywhere; the response head carries no grpc-status (it is not
+   a trailers-only response) and no grpc-encoding.  tonic's server_streaming() over the layer
+   gives the caller exactly the messages, and then exactly what Status::from_header_map makes of
+   the complete trailer list: an error status ends the stream with that status; otherwise the
+   stream ends OK and trailers() returns every pair. *)
+Theorem stack_streaming_status ps tl evs headers :
+  Forall (fun p => nlen p <= Decoder.DEFAULT_MAX_RECV_MESSAGE_SIZE) ps ->
+  trailers_ok tl = true -> nlen (encode_trailers tl) <= U32_MAX -> nlen tl <= HM_MAX_NAMES ->
+  only_data_or_pending evs = true ->
+  concat (datas evs) = fcat (plain_frames ps) ++ trailers_frame tl ->
+  hm_get_all headers CompressionTables.hdr_grpc_encoding = [] ->
+  Status.from_header_map headers = None ->
+  stack_streaming 200 headers (flat_map bev_of (run_x evs)) (stack_fuel (run_x evs)) =
+  SRStream headers ps
+    match Status.infer_grpc_status (Some (read_back tl)) 200 with
+    | inr (Some st) => inl st
+    | _ => inr (Some (read_back tl))
+    end.
+Proof.
+  intros Hp Ht Hl Hc He H Henc Hst.
+  destruct (any_chunking_gen_x (plain_frames ps) tl evs (plain_frames_ok ps Hp) Ht Hl Hc He H) as (ds & E1 & E2).
+  set (rb := read_back tl) in *.
+  rewrite E1, script_of_complete.
+  unfold stack_streaming, Call.create_response.
+  rewrite (Call.recv_plain Call.default_side headers Henc), Hst.
+  change (Call.max_dec Call.default_side) with (@None N).
+  pose proof (Codec.J_new Call.deser_id Call.no_decompress (Decoder.Response 200) None None
+                (plain_frames ps) ps (map Decoder.BData ds) (plain_good ps Hp)) as J0.
+  specialize (J0 ltac:(rewrite Decoder.data_of_chunks, plain_raw; exact E2)).
+  destruct (Call.collect_through (list N) Call.deser_id Call.no_decompress _ None (Decoder.Response 200) None
+              [Decoder.BTrailers rb] _ (map Decoder.BData ds) (Decoder.mkB 0) _ _ _ (le_n _) J0 (only_dp_data ds))
+    as (d0 & d1 & j & Lj & Id & C).
+  assert (F : (j + 1 <= stack_fuel (map OData ds ++ [OTrailers rb; ONone]))%nat).
+  { unfold stack_fuel. rewrite data_len_sum, app_length, !map_length. cbn [length map data_len list_sum].
+    rewrite map_length in Lj.
+    pose proof (fcat_plain_len ps) as L5. rewrite <- E2 in L5.
+    assert (length ps <= length (concat ds) / 5)%nat by (apply Nat.div_le_lower_bound; lia).
+    rewrite Nat.add_0_r. lia. }
+  set (fuel := stack_fuel _) in *.
+  replace fuel with (j + S (fuel - j - 1))%nat by lia. rewrite C.
+  destruct (Status.infer_grpc_status (Some rb) 200) as [[]|[st|]] eqn:EI.
+  - rewrite (Call.collect_trailers_ok (list N) Call.deser_id Call.no_decompress _ _ _ _ d0 d1 (Decoder.mkB 0) _ rb Id eq_refl).
+    + now rewrite app_nil_r.
+    + unfold Decoder.resp_ok, Codec.merged. now rewrite EI.
+  - destruct (Call.collect_trailers_err (list N) Call.deser_id Call.no_decompress _ _ _ _ d0 d1 (Decoder.mkB 0)
+                (fuel - j - 1)%nat rb 200 st Id eq_refl eq_refl) as (d' & CE).
+    { unfold Codec.merged. exact EI. }
+    rewrite CE. now rewrite app_nil_r.
+  - rewrite (Call.collect_trailers_ok (list N) Call.deser_id Call.no_decompress _ _ _ _ d0 d1 (Decoder.mkB 0) _ rb Id eq_refl).
+    + now rewrite app_nil_r.
+    + unfold Decoder.resp_ok, Codec.merged. now rewrite EI.
+Qed.
+
+Lemma script_of_error ds e :
+  flat_map bev_of (map OData ds ++ [OErr e]) = map Decoder.BData ds ++ [Decoder.BErr (werr_status e)].
+Proof.
+  rewrite flat_map_app. f_equal. induction ds as [|d ds IH]; [reflexivity|]. cbn [map flat_map bev_of app].
+  now rewrite IH.
+Qed.
+
+(* an error of this body reaches the caller: the messages of the frames that were delivered, then
+   the stream ends with that INTERNAL status *)
+Lemma stack_error_reaches_caller psa ds e headers :
+  Forall (fun p => nlen p <= Decoder.DEFAULT_MAX_RECV_MESSAGE_SIZE) psa ->
+  concat ds = fcat (plain_frames psa) ->
+  hm_get_all headers CompressionTables.hdr_grpc_encoding = [] ->
+  Status.from_header_map headers = None ->
+  stack_streaming 200 headers (flat_map bev_of (map OData ds ++ [OErr e]))
+                  (stack_fuel (map OData ds ++ [OErr e])) =
+  SRStream headers psa (inl (werr_status e)).
+Proof.
+  intros Hp E2 Henc Hst. rewrite script_of_error.
+  unfold stack_streaming, Call.create_response.
+  rewrite (Call.recv_plain Call.default_side headers Henc), Hst.
+  change (Call.max_dec Call.default_side) with (@None N).
+  pose proof (Codec.J_new Call.deser_id Call.no_decompress (Decoder.Response 200) None None
+                (plain_frames psa) psa (map Decoder.BData ds) (plain_good psa Hp)) as J0.
+  specialize (J0 ltac:(rewrite Decoder.data_of_chunks, plain_raw; exact E2)).
+  destruct (Call.collect_through (list N) Call.deser_id Call.no_decompress _ None (Decoder.Response 200) None
+              [Decoder.BErr (werr_status e)] _ (map Decoder.BData ds) (Decoder.mkB 0) _ _ _ (le_n _) J0 (only_dp_data ds))
+    as (d0 & d1 & j & Lj & Id & C).
+  assert (F : (j + 1 <= stack_fuel (map OData ds ++ [OErr e]))%nat).
+  { unfold stack_fuel. rewrite data_len_sum, app_length, !map_length. cbn [length map data_len list_sum].
+    rewrite map_length in Lj.
+    pose proof (fcat_plain_len psa) as L5. rewrite <- E2 in L5.
+    assert (length psa <= length (concat ds) / 5)%nat by (apply Nat.div_le_lower_bound; lia).
+    rewrite Nat.add_0_r. lia. }
+  set (fuel := stack_fuel _) in *.
+  replace fuel with (j + S (fuel - j - 1))%nat by lia. rewrite C.
+  destruct (Call.collect_body_err (list N) Call.deser_id Call.no_decompress _ _ _ _ d0 d1 (Decoder.mkB 0)
+              (fuel - j - 1)%nat (werr_status e) [] Id eq_refl) as (d' & CE).
+  rewrite CE. now rewrite app_nil_r.
+Qed.
+
+Lemma plain_frames_split ps fa fb : plain_frames ps = fa ++ fb ->
+  exists psa psb, ps = psa ++ psb /\ fa = plain_frames psa /\ fb = plain_frames psb.
+Proof.
+  unfold plain_frames. intros H. apply map_eq_app in H as (l1 & l2 & E & <- & <-). now exists l1, l2.
+Qed.
+
+(* TRUNCATION AT EVERY BYTE, seen by the caller: whatever non-empty strict prefix of the response
+   body arrives, in whatever chunking, server_streaming() gives the messages of whole frames and
+   then ends with an INTERNAL error - the caller never sees OK for a response whose status did not
+   arrive *)
+Theorem stack_truncation ps tl evs P U headers :
+  Forall (fun p => nlen p <= Decoder.DEFAULT_MAX_RECV_MESSAGE_SIZE) ps ->
+  trailers_ok tl = true -> nlen (encode_trailers tl) <= U32_MAX -> nlen tl <= HM_MAX_NAMES ->
+  only_data_or_pending evs = true ->
+  P ++ U = fcat (plain_frames ps) ++ trailers_frame tl -> U <> [] -> P <> [] ->
+  concat (datas evs) = P ->
+  hm_get_all headers CompressionTables.hdr_grpc_encoding = [] ->
+  Status.from_header_map headers = None ->
+  exists psa psb e,
+    ps = psa ++ psb /\ (e = E_EOF \/ e = E_NoTrailers) /\
+    stack_streaming 200 headers (flat_map bev_of (run_x evs)) (stack_fuel (run_x evs)) =
+      SRStream headers psa (inl (werr_status e)) /\
+    Status.st_code (werr_status e) = StatusTables.Code_Internal.
+Proof.
+  intros Hp Ht Hl Hc He H NU NP HP Henc Hst.
+  destruct (truncation_any_byte (plain_frames ps) tl evs P U (plain_frames_ok ps Hp) Ht Hl Hc He H NU NP HP)
+    as (ds & fa & fb & e & E1 & E2 & E3 & E4).
+  destruct (plain_frames_split ps fa fb E1) as (psa & psb & -> & -> & ->).
+  exists psa, psb, e. split; [reflexivity|]. split; [destruct E4 as [E4|[E4 _]]; auto|].
+  split; [|reflexivity]. rewrite E3.
+  apply stack_error_reaches_caller; try assumption.
+  rewrite Forall_app in Hp. tauto.
+Qed.
+
+(* ================= the capacity of HeaderMap::extend, exactly ================= *)
+Definition names_step (acc : list hname) (e : hname * hvalue) : list hname :=
+  if existsb (bytes_eqb (fst e)) acc then acc else acc ++ [fst e].
+
+Lemma names_many r : forall i acc, N.of_nat r + i <= 456976 ->
+  (forall j, i <= j < 456976 -> existsb (bytes_eqb (nth_name j)) acc = false) ->
+  fold_left names_step (many_lines r i) acc = acc ++ map fst (many_lines r i).
+Proof.
+  induction r as [|r IH]; intros i acc Hr Ha; cbn [many_lines fold_left map]; [now rewrite app_nil_r|].
+  unfold names_step at 2. cbn [fst]. rewrite Ha by lia.
+  rewrite IH.
+  - rewrite <- app_assoc. reflexivity.
+  - lia.
+  - intros j Hj. rewrite existsb_app, Ha by lia. cbn [existsb orb].
+    rewrite orb_false_r. apply not_true_iff_false. intros Q. apply bytes_eqb_eq in Q.
+    apply nth_name_inj in Q; lia.
+Qed.
+
+Lemma many_lines_len r : forall i, length (many_lines r i) = r.
+Proof. induction r as [|r IH]; intros i; [reflexivity|]. cbn [many_lines length]. now rewrite IH. Qed.
+
+Lemma names_of_many n : N.of_nat n <= 456976 -> nlen (names_of (many_lines n 0)) = N.of_nat n.
+Proof.
+  intros Hn. unfold names_of. change (fun acc e => _) with names_step.
+  rewrite names_many; [|lia|reflexivity]. cbn [app]. unfold nlen. now rewrite map_length, many_lines_len.
+Qed.
+
+(* a map with [n] distinct names (the in-body trailers), extended by HTTP trailers of the wrapped
+   body with one name - new or not: `extend` panics iff the map is full, n = 24576.  Together with
+   c17_webc_header_map_capacity (such a trailers frame decodes iff n <= 24576) this is what kind
+   observe.header_map_extend_capacity records on the real crate ([obs_extend_capacity]) *)
+Theorem extend_capacity_exact n k v : N.of_nat n <= 456976 ->
+  extend_panics (many_lines n 0) [(k, v)] = (N.of_nat n =? HM_MAX_NAMES).
+Proof.
+  intros Hn. unfold extend_panics.
+  change (names_of [(k, v)]) with [k]. cbn [extend_walk].
+  rewrite (names_of_many n Hn). destruct (N.of_nat n =? HM_MAX_NAMES); reflexivity.
+Qed.
